@@ -450,6 +450,9 @@ def push_option_adapters(root):
     visit(wrapper, "r")
 
 
+_COPY_COUNTER = [0]
+
+
 def push_continuations(root):
     """`if let P = <inlined helper>[?] {A} else {C}` / `match <inlined helper>[?] {..}` / `if <inlined helper> {A} else {C}`:
     when every exit value of the helper is a literal constructor, the selected branch is moved to the helper's exit
@@ -540,8 +543,22 @@ def push_continuations(root):
                     old = tgt[0][tgt[1]]
                     tgt[0][tgt[1]] = {"k": "return", "e": old, "ty": "!", "sp": old.get("sp")}
                 continue
-            stmts = [{"k": "let", "pat": p_, "init": val, "sp": val.get("sp"), "inl_param": True} for p_, val in binds]
-            rep = {"k": "blockexpr", "b": {"k": "block", "stmts": stmts, "tail": copy.deepcopy(body), "sp": body.get("sp")}, "ty": body.get("ty"), "sp": body.get("sp"), "cont_of": iid}
+            # every copy of the continuation gets its own binding ids (lets / patterns inside it and the pattern of the selected branch):
+            # the global let / alias tables are keyed by id
+            _COPY_COUNTER[0] += 1
+            off_ = 10 ** 12 + 10 ** 6 * _COPY_COUNTER[0]
+            body_c = copy.deepcopy(body)
+            binds_c = [(copy.deepcopy(p_), val) for p_, val in binds]
+            bound_ = {y["id"] for y in walk(body_c) if y.get("k") == "pbind" and isinstance(y.get("id"), int)}
+            for p_, _v in binds_c:
+                bound_ |= {y["id"] for y in walk(p_) if y.get("k") == "pbind" and isinstance(y.get("id"), int)}
+            if bound_:
+                for part in [body_c] + [p_ for p_, _v in binds_c]:
+                    for y in walk(part):
+                        if y.get("k") in ("local", "pbind") and y.get("id") in bound_:
+                            y["id"] = y["id"] + off_
+            stmts = [{"k": "let", "pat": p_, "init": val, "sp": val.get("sp"), "inl_param": True} for p_, val in binds_c]
+            rep = {"k": "blockexpr", "b": {"k": "block", "stmts": stmts, "tail": body_c, "sp": body.get("sp")}, "ty": body.get("ty"), "sp": body.get("sp"), "cont_of": iid}
             if ek == "iret":
                 tgt["e"] = rep
             else:
